@@ -808,7 +808,10 @@ class FnAnalysis:
                             return None
                     if ("notvar", base, nm) in facts:
                         return None
-                    return self._select_phi(facts | {("var", base, nm)}, base, nm)
+                    cf = self._case_facts(facts, base, nm)
+                    if cf is None:
+                        return None
+                    return self._select_phi(cf | {("var", base, nm)}, base, nm)
                 else:
                     if ("var", base, nm) in facts:
                         return None
@@ -816,7 +819,10 @@ class FnAnalysis:
                     out.add(("notvar", base, nm))
                     if len(vs) == 2:
                         out.add(("var", base, others[0]))
-                        return self._select_phi(frozenset(out), base, others[0])
+                        cf = self._case_facts(frozenset(out), base, others[0])
+                        if cf is None:
+                            return None
+                        return self._select_phi(cf, base, others[0])
                     return frozenset(out)
         if dty == "bool":
             truthv = bool(v) == taken
@@ -846,6 +852,26 @@ class FnAnalysis:
             if eqt(v) is not None and eqt(v).op != "const":
                 extra.add(("false", eqt(v)))
             return facts | extra
+
+    def _case_facts(self, facts, base, vname):
+        """base is `if c {A} else {B}` (the summary of a helper) with A, B of different variants: knowing the variant decides c"""
+        if base.op != "ite":
+            return facts
+        c, a, b = base.args
+        va = a.args[3] if a.op == "agg" and a.args[0] == "adt" else None
+        vb = b.args[3] if b.op == "agg" and b.args[0] == "adt" else None
+        if va is None or vb is None or va == vb:
+            return facts
+        if vname == va:
+            tv = True
+        elif vname == vb:
+            tv = False
+        else:
+            return None
+        cur = self.truth(facts, c)
+        if cur is not None and cur != tv:
+            return None
+        return self.assume_bool(facts, c, tv)
 
     def _select_phi(self, facts, base, vname):
         """Correlated branches: `base` is a merge of values of which exactly one can be variant `vname`; learning that
